@@ -8,12 +8,16 @@ sys.path.insert(0, ROOT)
 def main():
     props = [json.loads(l) for l in open(os.path.join(ROOT, 'properties.jsonl'))]
     checks, na = [], []
+    claimed = set(open(os.path.join(ROOT, 'claimed.txt')).read().split())
     for p in props:
         pid = p['id']
         path = os.path.join(ROOT, 'vf', 'props', pid + '.py')
         mod = None
         if os.path.exists(path):
             mod = importlib.import_module('vf.props.' + pid)
+        if mod is not None and pid not in claimed:
+            na.append({'property_id': pid, 'reason': 'check built but not yet validated by the lead on the unchanged tree (work in progress); runtime monitoring applies, see DESIGN.md section 3/%s' % pid})
+            continue
         if mod is None or not getattr(mod, 'CLAIMED', True):
             na.append({'property_id': pid, 'reason': getattr(mod, 'NOT_CLAIMED_REASON', 'check not built yet (work in progress); runtime monitoring applies, see DESIGN.md section 3/%s' % pid)})
             continue
